@@ -1,0 +1,84 @@
+#pragma once
+
+// Verification hooks (compiled in only with -DOP2UTILITY_VERIF; otherwise OP2UTILITY_VERIF_SCOPE expands to nothing).
+// When the environment variable OP2UTILITY_VERIF_TRACE names a file, every hooked stream operation appends one
+// JSON line to it as the operation ends - on the error path too - with the position before and after and the length.
+
+#ifdef OP2UTILITY_VERIF
+
+#include <cstdint>
+#include <cstdio>
+#include <cstdlib>
+#include <exception>
+#include <type_traits>
+
+namespace OP2Utility::Stream::Verif
+{
+	inline std::FILE* TraceFile()
+	{
+		static std::FILE* file = [] {
+			const char* path = std::getenv("OP2UTILITY_VERIF_TRACE");
+			return path != nullptr ? std::fopen(path, "a") : nullptr;
+		}();
+		return file;
+	}
+
+	// Values beyond 2^31 - 1 are logged clamped, with a flag (the trace checker works with 32 bit integers)
+	inline void PrintClamped(std::FILE* file, const char* name, uint64_t value)
+	{
+		const uint64_t max = 0x7FFFFFFF;
+		std::fprintf(file, ",\"%s\":%llu,\"%sBig\":%s", name, static_cast<unsigned long long>(value > max ? max : value), name, value > max ? "true" : "false");
+	}
+
+	template <typename StreamType>
+	class Scope
+	{
+	public:
+		Scope(StreamType* stream, const char* kind, const char* operation, uint64_t argument1, uint64_t argument2) :
+			stream(stream), kind(kind), operation(operation), argument1(argument1), argument2(argument2),
+			positionBefore(0), lengthBefore(0), exceptionCount(std::uncaught_exceptions())
+		{
+			if (TraceFile() != nullptr) {
+				positionBefore = stream->Position();
+				lengthBefore = stream->Length();
+			}
+		}
+
+		~Scope()
+		{
+			std::FILE* file = TraceFile();
+			if (file == nullptr) {
+				return;
+			}
+			std::fprintf(file, "{\"e\":\"Op\",\"kind\":\"%s\",\"op\":\"%s\",\"ok\":%s", kind, operation, std::uncaught_exceptions() > exceptionCount ? "false" : "true");
+			PrintClamped(file, "a", argument1);
+			PrintClamped(file, "b", argument2);
+			PrintClamped(file, "p0", positionBefore);
+			PrintClamped(file, "len0", lengthBefore);
+			PrintClamped(file, "p1", stream->Position());
+			PrintClamped(file, "len1", stream->Length());
+			std::fprintf(file, "}\n");
+			std::fflush(file);
+		}
+
+	private:
+		StreamType* stream;
+		const char* kind;
+		const char* operation;
+		uint64_t argument1;
+		uint64_t argument2;
+		uint64_t positionBefore;
+		uint64_t lengthBefore;
+		int exceptionCount;
+	};
+}
+
+#define OP2UTILITY_VERIF_SCOPE(kind, operation, argument1, argument2) \
+	::OP2Utility::Stream::Verif::Scope<std::remove_const_t<std::remove_pointer_t<decltype(this)>>> verifScope( \
+		const_cast<std::remove_const_t<std::remove_pointer_t<decltype(this)>>*>(this), kind, operation, argument1, argument2)
+
+#else
+
+#define OP2UTILITY_VERIF_SCOPE(kind, operation, argument1, argument2) ((void)0)
+
+#endif
